@@ -206,4 +206,93 @@ def representIntegerTrial (isPP : Int → Bool) (nGamma p z t : Int) (primes : L
   | .fail => .fail
   | .ub => .ub
 
+/-! ### `represent_integer` / `represent_integer_non_diag` (klpt/tools.c), whole function at the integer level
+
+The candidate-enumeration loop (at most `trials` = KLPT_repres_num_gamma_trial iterations; z ∈ [1, ⌊√(4n/p)⌋],
+t ∈ [1, ⌊√(⌊4n/p⌋ − z²)⌋] drawn with `ibz_rand_interval`; x, y from `ibz_cornacchia_extended`; the C parity tests on
+`int64` truncations) is transcribed.  The quaternion tail (`order_elem_create`, `quat_alg_make_primitive`,
+`ibz_mat_4x4_eval` with the basis of STANDARD_EXTREMAL_ORDER = ⟨1, i, (i+j)/2, (1+k)/2⟩, denominator 2) is modelled
+by its closed form for that order: x + y·i + z·j + t·(j·i) = x + y i + z j − t k has lattice coordinates
+(x+t, y−z, 2z, −2t); content g = gcd of those; γ = basis · (coords / g), denominator 2; n_gamma ← 4n / g².
+(`quat_alg_mul`, `quat_lattice_contains` themselves belong to C14/C15; the closed form is tied by correspondence.) -/
+
+/-- C `%` on `int64_t` -/
+def cRem (a m : Int) : Int := a.tmod m
+
+def inInt64 (v : Int) : Bool := decide (-(2 ^ 63) ≤ v ∧ v < 2 ^ 63)
+
+/-- the acceptance tests after Cornacchia; returns the (possibly swapped) x, y.  `ub` = signed overflow in
+    `ibz_get(a) - ibz_get(b)` -/
+def riAccept (nd : Bool) (x y z t : Int) : Res (Int × Int) :=
+  if ¬ nd then
+    if cRem (ibzGet x) 2 = cRem (ibzGet t) 2 ∧ cRem (ibzGet y) 2 = cRem (ibzGet z) 2 then .ok (x, y) else .fail
+  else
+    let (x, y) := if cRem (ibzGet x) 2 = cRem (ibzGet t) 2 then (x, y) else (y, x)
+    if cRem (ibzGet x) 2 = cRem (ibzGet t) 2 ∧ cRem (ibzGet y) 2 = cRem (ibzGet z) 2 then
+      let d1 := ibzGet x - ibzGet t
+      let d2 := ibzGet y - ibzGet z
+      if ¬ inInt64 d1 then .ub
+      else if cRem d1 4 ≠ 2 then .fail
+      else if ¬ inInt64 d2 then .ub
+      else if cRem d2 4 = 2 then .ok (x, y) else .fail
+    else .fail
+
+/-- the main loop: `k` trials left -/
+def riLoop (isPP : Int → Bool) (nd : Bool) (p adjusted sqBound bound : Int) (primes : List Int) (bad : Option Int) :
+    Nat → List Nat → Res ((Int × Int × Int × Int) × List Nat)
+  | 0, _ => .fail
+  | k + 1, s =>
+    match ibzRandInterval 1 bound s with
+    | .ok (z, s1) =>
+      let temp : Int := (isqrt (sqBound - z * z).toNat : Nat)
+      if temp = 0 then riLoop isPP nd p adjusted sqBound bound primes bad k s1
+      else
+        match ibzRandInterval 1 temp s1 with
+        | .ok (t, s2) =>
+          let target := adjusted - (z * z + t * t) * p
+          (match ibzCornacchiaExtended isPP target primes bad with
+           | .ok (x, y) =>
+             (match riAccept nd x y z t with
+              | .ok (x', y') => .ok ((x', y', z, t), s2)
+              | .fail => riLoop isPP nd p adjusted sqBound bound primes bad k s2
+              | .ub => .ub)
+           | .fail => riLoop isPP nd p adjusted sqBound bound primes bad k s2
+           | .ub => .ub)
+        | _ => .ub        -- randombytes failed: the C ignores the return value and goes on with a stale coordinate (not modelled)
+    | _ => .ub
+
+structure RIOut where
+  nOut : Int
+  coord : List Int
+  denom : Int
+deriving Repr, DecidableEq
+
+def gcd4 (a b c d : Int) : Int := (gcdext (gcdext (gcdext a b).1 c).1 d).1
+
+/-- the quaternion tail for the standard extremal order (closed form, see the section comment) -/
+def riFinish (n : Int) (x y z t : Int) : RIOut :=
+  let a := x + t
+  let b := y - z
+  let c := 2 * z
+  let d := -(2 * t)
+  let g := gcd4 a b c d
+  let a' := a.tdiv g; let b' := b.tdiv g; let c' := c.tdiv g; let d' := d.tdiv g
+  { nOut := (n * 2 * 2).tdiv (g * g), coord := [2 * a' + d', 2 * b' + c', c', d'], denom := 2 }
+
+def riPrimes (nd : Bool) : List Int := if nd then [2, 5, 13, 17, 29, 37, 41, 53, 61, 73, 89, 97] else [5]
+def riBad (nd : Bool) : Int :=
+  if nd then 140227657289781369 * 8695006970070847579 * 4359375434796427649 * 221191130330393351 *
+    1516192381681334191 * 5474546011261709671 else 1
+
+/-- `represent_integer` (nd = false) / `represent_integer_non_diag` (nd = true); `fail` = the C returns 0 -/
+def representInteger (isPP : Int → Bool) (nd : Bool) (trials : Nat) (n p : Int) (stream : List Nat) :
+    Res (RIOut × List Nat) :=
+  let adjusted := n * 2 * 2
+  let sqBound := adjusted.tdiv p
+  let bound : Int := (isqrt sqBound.toNat : Nat)
+  match riLoop isPP nd p adjusted sqBound bound (riPrimes nd) (some (riBad nd)) trials stream with
+  | .ok ((x, y, z, t), rest) => .ok (riFinish n x y z t, rest)
+  | .fail => .fail
+  | .ub => .ub
+
 end SqiModel.NumberTheory
